@@ -24,7 +24,7 @@ EXPLANATION = (
     "carries the time-step counter; the dap column carries the state's dap. C07.d: the planting / harvest year lists "
     "derived at initialisation are not mutated in place while another name aliases the same list. C07.e: crop_mature is set only under `<clock> >= crop.Maturity` "
     "where the clock's normal form is the state's own days-after-planting (under CalendarType == 1) or cumulative degree days (under "
-    "CalendarType == 2) of that day - not a delay-adjusted or otherwise shifted clock - and both calendar types are covered. NOT decided: the "
+    "CalendarType == 2) of that day - not a delay-adjusted or otherwise shifted clock - and both calendar types are covered. C07.f: crop_mature, crop_dead, harvest_flag and dap are cleared on every path of the season reset (literal setattr loops are expanded). NOT decided: the "
     "planting / harvest year arithmetic itself (numeric).")
 
 L = frozenset
@@ -329,10 +329,48 @@ def rule_e(chk, prog):
             chk.violation("C07.e", STEP_FN, construct, f"maturity is tested for calendar type(s) {sorted(seen_modes)} only", loc=step.loc(n.ast))
 
 
+SEASON_FLAGS = {"crop_mature": False, "crop_dead": False, "harvest_flag": False, "dap": 0}
+
+
+def rule_f(chk, prog):
+    """C07.f: a season ends early only if *its* crop has died / matured / was harvested: the per-season progress flags and the
+    days-after-planting counter are cleared by the season reset on every path (a flag left from the previous season ends the new
+    season on its planting day)."""
+    fi = prog.func(RESET_FN)
+    chk.fn(fi.key)
+    where = f"{fi.module}:{fi.qualname}"
+    flow = flow_of(fi)
+    cfg = flow.cfg
+    found = {}
+    for sto in stores(prog, fi, None):
+        if sto.kind == "attr" and sto.field in SEASON_FLAGS:
+            v = getattr(sto.node, "value", None)
+            if isinstance(v, ast.Constant) and v.value == SEASON_FLAGS[sto.field] and type(v.value) is type(SEASON_FLAGS[sto.field]):
+                nid = flow.stmt_node.get(id(sto.node)) or flow.node_of(sto.node)
+                # a store in the body of `for v in (<non-empty literal tuple>)` is executed whenever the loop statement is reached
+                for loop in walk_no_nested(fi.node):
+                    if isinstance(loop, ast.For) and isinstance(loop.iter, (ast.Tuple, ast.List)) and loop.iter.elts \
+                            and any(sub is sto.node for b in loop.body for sub in ast.walk(b)) and len(loop.body) == 1:
+                        nid = flow.stmt_node.get(id(loop), nid)
+                found.setdefault(sto.field, set()).add(nid)
+    for f, val in sorted(SEASON_FLAGS.items()):
+        construct = f"<state>.{f} = {val!r} on every path of the season reset"
+        nodes = {n for n in found.get(f, set()) if n is not None}
+        if not nodes:
+            chk.violation("C07.f", where, construct, f"the season reset does not clear {f}: the value left by the previous season (e.g. a crop that died) "
+                          "decides the new season's first day", loc=fi.loc())
+        elif cfg.paths_exist_avoiding(cfg.entry, cfg.exit, nodes):
+            chk.violation("C07.f", where, construct, f"{f} is cleared on some paths of the season reset only", loc=fi.loc())
+        else:
+            chk.ok("C07.f", where, construct, "cleared unconditionally")
+    chk.floor("C07.f", len(found), 3, "season flags cleared by the reset")
+
+
 def run(chk, prog, tier):
     rule_a(chk, prog)
     rule_b(chk, prog)
     rule_c(chk, prog)
     rule_d(chk, prog)
     rule_e(chk, prog)
+    rule_f(chk, prog)
     chk.exhaustive = True
